@@ -772,6 +772,12 @@ impl btdht::SocketTrait for SimSocket {
         if stall > 0 {
             tokio::time::sleep(Duration::from_millis(stall)).await;
         }
+        if target.port() == 0 {
+            // what the operating system does with a destination port of 0 (a contact can be
+            // advertised with any port by whoever names it)
+            self.net.lock().bump("send_to_port_0_einval");
+            return Err(io::Error::from_raw_os_error(22));
+        }
         let (r, check) = {
             let mut n = self.net.lock();
             if n.dead.contains(&self.addr) {
